@@ -26,6 +26,9 @@ type C20Case struct {
 	Via    string   `json:"via"`    // direct | json | ubjson | cborl
 	Docs   []C20Doc `json:"docs"`
 	Cuts   []int    `json:"cuts,omitempty"` // parser routes: chunking applied to every document (positions beyond the end are ignored)
+	// Recap[i] >= 0: EnableKeyCache(Recap[i]) is called again before document i
+	// (an application re-configuring the cache per batch)
+	Recap []int `json:"recap,omitempty"`
 }
 
 func c20TargetType(name string) reflect.Type {
@@ -198,6 +201,26 @@ func checkC20(ci any, info *CaseInfo) string {
 			})
 			return target, o
 		}
+		capNow := c.Cap
+		if i < len(c.Recap) && c.Recap[i] >= 0 {
+			info.Class("cache_reconfigured")
+			ro := guard(func() error { withCache.EnableKeyCache(c.Recap[i]); return nil })
+			if ro.Panicked() {
+				return fmt.Sprintf("%s: EnableKeyCache(%d) before document #%d panics: %v", desc, c.Recap[i], i, ro.Panic)
+			}
+			capNow = c.Recap[i]
+			for k := range everCached {
+				delete(everCached, k)
+			}
+			for k := range evicted {
+				delete(evicted, k)
+			}
+		}
+		for j := 0; j <= i && j < len(c.Recap); j++ {
+			if c.Recap[j] >= 0 {
+				capNow = c.Recap[j]
+			}
+		}
 		ta, oa := run(withCache)
 		tb, ob := run(without)
 		if oa.Panicked() {
@@ -229,7 +252,7 @@ func checkC20(ci any, info *CaseInfo) string {
 				delete(evicted, k)
 			}
 		}
-		if c.Cap > 0 && len(now) > c.Cap {
+		if capNow > 0 && len(now) > capNow {
 			return fmt.Sprintf("%s: the cache holds %d keys after document #%d", desc, len(now), i)
 		}
 	}
@@ -285,6 +308,18 @@ func drawC20(t *rapid.T) any {
 		}
 		c.Docs = append(c.Docs, d)
 	}
+	if rapid.IntRange(0, 3).Draw(t, "recap") == 0 {
+		for i := 0; i < nd; i++ {
+			r := -1
+			if i > 0 && rapid.IntRange(0, 2).Draw(t, "recapat") == 0 {
+				r = rapid.SampledFrom([]int{0, 1, 2, 3, 5, 8, 64}).Draw(t, "recapv")
+				if rapid.Bool().Draw(t, "recapsame") {
+					r = c.Cap
+				}
+			}
+			c.Recap = append(c.Recap, r)
+		}
+	}
 	if c.Via != "direct" && rapid.Bool().Draw(t, "chunk") {
 		n := rapid.IntRange(1, 5).Draw(t, "ncuts")
 		for i := 0; i < n; i++ {
@@ -299,7 +334,7 @@ func drawC20(t *rapid.T) any {
 func init() {
 	register(&Property{
 		ID:    "C20",
-		Rule:  "histories of 1..8 documents whose keys come from a 10-key alphabet, 1 in 3 histories from 3..8 generated keys (one- and two-byte keys over the whole byte range, escapes, long keys) (hits, misses, evictions, re-insertions; empty, non-ASCII and long keys; duplicates within a document) delivered BY REFERENCE from scratch buffers that are overwritten right after every callback / Write — directly and through the json, ubjson and cborl parsers with generated chunkings — into map[string]interface{}, map[string]int, interface{}, reflection-built map[string]struct and struct{M map[string][]int}, with key-cache capacity in {0,1,2,3,5,8,64}; oracle = after every document the result equals that of an identical unfolder without cache, all earlier results are re-checked at the end (cached keys intact), the cache never exceeds its capacity, no panic; non-trivial = at least one eviction followed by a re-insertion of the evicted key (measured through the recency hook); distinct by case hash",
+		Rule:  "histories of 1..8 documents whose keys come from a 10-key alphabet, 1 in 3 histories from 3..8 generated keys (one- and two-byte keys over the whole byte range, escapes, long keys) (hits, misses, evictions, re-insertions; empty, non-ASCII and long keys; duplicates within a document) delivered BY REFERENCE from scratch buffers that are overwritten right after every callback / Write — directly and through the json, ubjson and cborl parsers with generated chunkings — into map[string]interface{}, map[string]int, interface{}, reflection-built map[string]struct and struct{M map[string][]int}, with key-cache capacity in {0,1,2,3,5,8,64}, 1 in 4 histories re-configuring it (same, smaller or larger capacity) between documents; oracle = after every document the result equals that of an identical unfolder without cache, all earlier results are re-checked at the end (cached keys intact), the cache never exceeds its capacity, no panic; non-trivial = at least one eviction followed by a re-insertion of the evicted key (measured through the recency hook); distinct by case hash",
 		New:   func() any { return &C20Case{} },
 		Draw:  drawC20,
 		Check: checkC20,
